@@ -32,6 +32,8 @@ type Program struct {
 	Expect   []string
 	// Globals are installed in the JS context.
 	Globals map[string]any
+	// ContextScript is evaluated inside the JS context before the program (C11 probes).
+	ContextScript string
 	// NativeFiles, when set, replaces Files for the native reference build (used by C10 to give
 	// the reference toolchain the files of each package under order-reversing names).
 	NativeFiles map[string]string
@@ -165,7 +167,7 @@ func (e *Env) RunJS(dir string, p Program, v Variant) (ref.Outcome, gjs.Result, 
 		return ref.Outcome{End: "builderror"}, res, out
 	}
 	atomic.AddInt64(&e.Executions, 1)
-	r, err := e.Nodes.Run(jsx.Req{Script: out, Globals: p.Globals, FifoTimers: true})
+	r, err := e.Nodes.Run(jsx.Req{Script: out, Globals: p.Globals, FifoTimers: true, ContextScript: p.ContextScript})
 	if err != nil {
 		e.harness("node runner: " + err.Error())
 		return ref.Outcome{End: "harness"}, res, out
@@ -329,7 +331,7 @@ func (e *Env) Check(p Program, variants []Variant) {
 			continue
 		}
 		// determinism guard: re-run both sides once
-		r2, err := e.Nodes.Run(jsx.Req{Script: script, Globals: p.Globals, FifoTimers: true})
+		r2, err := e.Nodes.Run(jsx.Req{Script: script, Globals: p.Globals, FifoTimers: true, ContextScript: p.ContextScript})
 		if err == nil {
 			got2 := ref.NormaliseJS(r2.Out, r2.End)
 			if strings.Join(got2.Lines, "\n") != strings.Join(got.Lines, "\n") || got2.End != got.End {
@@ -488,7 +490,7 @@ func (e *Env) CheckAgainstVariant(p Program, base Variant, others []Variant) {
 		if len(d) == 0 {
 			continue
 		}
-		r2, err := e.Nodes.Run(jsx.Req{Script: script, Globals: p.Globals, FifoTimers: true})
+		r2, err := e.Nodes.Run(jsx.Req{Script: script, Globals: p.Globals, FifoTimers: true, ContextScript: p.ContextScript})
 		if err == nil {
 			got2 := ref.NormaliseJS(r2.Out, r2.End)
 			if strings.Join(got2.Lines, "\n") != strings.Join(got.Lines, "\n") || got2.End != got.End {
